@@ -15,7 +15,7 @@ class Contract:
                  inline=False, trusted=False, pure=False, auto=True, result_fresh=True,
                  prop_of=None, notes='', cls_targs=None, verify=True, terminates=True, unroll=None,
                  reads_only=False, this_shape=None, extra_env=None, body_assumes=(), max_paths=4000,
-                 returns_ref=None, timeout_ms=None, sig_not=None, binds=None, ghost=None, ghost_on=(), nowrap=False, post_facts=(), value=None):
+                 returns_ref=None, timeout_ms=None, sig_not=None, binds=None, ghost=None, ghost_on=(), nowrap=False, post_facts=(), value=None, ensures_after=()):
         self.name = name
         self.tu = tu
         self.sig = sig
@@ -49,6 +49,7 @@ class Contract:
         self.ghost_on = list(ghost_on)
         self.nowrap = nowrap
         self.post_facts = list(post_facts)
+        self.ensures += [(e if isinstance(e, tuple) else ('postb%d' % i, e)) for i, e in enumerate(ensures_after)]
         self.value = value
         if value is not None:
             self.ensures.append(('value', 'result == (%s)' % value))
@@ -555,7 +556,13 @@ def _If(c, a, b):
     return z3.If(c, a, b)
 
 
+def _ghost_int(name):
+    """a universally quantified ghost integer of a contract (free symbol; reported in counterexamples)"""
+    return z3.Int('ghost.' + name)
+
+
 BASE_NS = {
+    'ghost_int': _ghost_int, 'IsInt': z3.IsInt,
     'pow2': _pow2,
     'add': _arith('+'), 'sub': _arith('-'), 'mul': _arith('*'), 'div': _arith('/'), 'eqv': eqv,
     'cx': cx, 'CDIV_DEF': cdiv_def, 'INSLICE': INSLICE, 'INSLICE_AX': inslice_ax, 'INSLICE_BASE': inslice_base, 'INSLICE_STEP': inslice_step,
